@@ -101,6 +101,9 @@ def run_behaviour(ctx, binary, bi, beh, quick, stride):
     sess = W.Session(ctx, binary, dict(keypool=KEYPOOL, steps=ops), tag)
     ctx.log("%s: session done (%d syscalls)" % (tag, len(sess.calls)))
     try:
+        if sess.abort and "step" in sess.abort:
+            mism.append(dict(beh=bi, step=sess.abort["step"], a=sess.abort.get("action"), why="the process aborted inside the call (%s)" % sess.abort.get("why", "")[-80:]))
+            return lines, mism, stats
         if sess.out["load"] != "ok" or sess.aborted or len(sess.out.get("steps", [])) != len(ops):
             raise vflib.InfraError("workload session failed: %s" % sess.out["load"])
         mut = sess.mutating_points()
@@ -141,8 +144,8 @@ def run_behaviour(ctx, binary, bi, beh, quick, stride):
             have_ok = bool(r.get("ok"))
             if exp_ok is not None and have_ok != exp_ok:
                 mism.append(dict(beh=bi, step=k, a=a, why="result %s, specification %s (%s)" % ("ok" if have_ok else "fail", "ok" if exp_ok else "fail", json.dumps(r)[:160])))
-            if not (orig_ids <= {d["id"] for d in out[j]["obs"]["desc"]}):
-                mism.append(dict(beh=bi, step=k, a=a, why="an original descriptor disappeared"))
+            if not (orig_ids <= {d["id"] for d in out[j]["obs"].get("desc", [])}):
+                mism.append(dict(beh=bi, step=k, a=a, why="an original descriptor disappeared" if "desc" in out[j]["obs"] else "no wallet is loaded after the call"))
         # the monitor on the live file: every scan after EncryptWallet returned
         for j, op in enumerate(ops):
             if op[0] == "scan" and j > 3:
@@ -207,6 +210,7 @@ def run(ctx):
     def score(b):
         acts = [(s["a"][0], s.get("r")) for s in b["steps"]]
         return (("encrypt", "running") in acts) * 4 + (("unlock", "ok") in acts) * 3 + (("sign", "ok") in acts) * 2 + (("changepass", "ok") in acts) * 2 + (("unlock", "fail") in acts) + (("reload", "ok") in acts)
+    sim_actions = collections.Counter((s["a"][0], s.get("r", "?")) for b in behs for s in b["steps"])    # vacuity guard on everything TLC simulated
     behs.sort(key=lambda b: -score(b))
     # the fixed behaviour gets its predicted results from the specification as well (WalletCryptRun)
     bpath = os.path.join(ctx.work, "fixed.ndjson")
@@ -216,10 +220,10 @@ def run(ctx):
     if len(rows) != len(FIXED) or any(rows[k + 1]["a"] != a for k, a in enumerate(FIXED)):
         raise vflib.InfraError("the fixed behaviour is not a behaviour of WalletCrypt (stops after step %d)" % len(rows))
     behs = [dict(steps=[dict(a=a, r=rows[k + 1]["r"]) for k, a in enumerate(FIXED)])] + [b for b in behs if score(b) >= 9][: (1 if quick else 8)]
-    per_action = collections.Counter((s["a"][0], s.get("r", "?")) for b in behs[1:] for s in b["steps"])
-    for need in (("encrypt", "running"), ("unlock", "ok"), ("unlock", "fail"), ("sign", "ok"), ("sign", "fail")):
-        if not per_action[need]:
-            raise vflib.InfraError("no simulated behaviour has %s" % (need,))
+    per_action = collections.Counter((s["a"][0], s.get("r", "?")) for b in behs for s in b["steps"])
+    for need in (("encrypt", "running"), ("unlock", "ok"), ("unlock", "fail"), ("sign", "ok"), ("sign", "fail"), ("changepass", "ok"), ("changepass", "fail"), ("lock", "ok"), ("reload", "ok")):
+        if not per_action[need] or not sim_actions[need]:
+            raise vflib.InfraError("no %s behaviour has %s" % ("replayed" if sim_actions[need] else "simulated", need))
     stride = 6 if quick else 1
     lines, mism, stats = [], [], collections.Counter()
     with concurrent.futures.ThreadPoolExecutor(max_workers=max(1, min(len(behs), vflib.free_cpus() // 2))) as ex:
